@@ -285,11 +285,29 @@ def case_C15(seed):
     cfg['max_dist'] = None
     cfg['max_dist_init'] = 1e7           # finite and far beyond the map: "no cut-offs"
     res = []
-    for g, tr, ll in ((g_ll, tr_ll, True), (g_xy, tr_xy, False)):
-        mp = U.make_map(g, use_latlon=ll)
-        mt = U.make_matcher(mp, cfg)
-        r = mt.match(tr)
-        res.append(U.canon(mt, r))
+    # one case in four with integer labels: both maps are SqliteMaps (the spatial index of that backend stores 32-bit floats -
+    # decimetres in degrees, nothing in metres; the coordinates the matcher sees must still be the 64-bit ones).  Both, because
+    # the backends differ by design in one respect (C12: the in-memory map lists a node as its own neighbour)
+    sqlite_ll = seed % 4 == 1 and all(isinstance(k, int) for k in g_ll)
+    tmpd = None
+    try:
+        for g, tr, ll in ((g_ll, tr_ll, True), (g_xy, tr_xy, False)):
+            if sqlite_ll:
+                import tempfile
+                from rtc.map_suites import build_sqlite
+                tmpd = tmpd or tempfile.mkdtemp(prefix='c15_')
+                mp, _ = build_sqlite(g, tmpd, name='ll' if ll else 'xy', use_latlon=ll, how='single')
+            else:
+                mp = U.make_map(g, use_latlon=ll)
+            mt = U.make_matcher(mp, cfg)
+            import io, contextlib
+            with contextlib.redirect_stdout(io.StringIO()):      # SqliteMap.edges_closeto prints its argument
+                r = mt.match(tr)
+            res.append(U.canon(mt, r))
+    finally:
+        if tmpd:
+            import shutil
+            shutil.rmtree(tmpd, ignore_errors=True)
     a, b = res
     viol = []
     knife = 0
@@ -317,7 +335,7 @@ def case_C15(seed):
             knife = 1
         else:
             viol.append(('C15:latlon-differs-from-projected-planar', f"lat-lon idx/best {a['idx']}/{a['best']} vs planar {b['idx']}/{b['best']} at {origin}, {s} m per unit",
-                         {'case': U.case_repr(case), 'origin': origin, 'metres_per_unit': s, 'latlon': a, 'planar': b}))
+                         {'case': U.case_repr(case), 'origin': origin, 'metres_per_unit': s, 'latlon': a, 'planar': b, 'maps': 'SqliteMap' if sqlite_ll else 'InMemMap'}))
     return {'nontrivial': bool(a['states']) and len(case['graph']) >= 3, 'violations': viol, 'sample': {'origin': origin, 'scale': s, 'case': U.case_repr(case)},
             'knife_edge': knife}
 
